@@ -75,7 +75,7 @@ func EncodeJsonMarshaler(buf *[]byte, val json.Marshaler, opt uint64) error {
 			return Compact(buf, ret)
 		}
 		if opt&(1<<alg.BitNoValidateJSONMarshaler) == 0 {
-			if ok, s := alg.Valid(ret); !ok {
+			if ok, s := alg.ValidStrict(ret); !ok {
 				return vars.Error_marshaler(ret, s)
 			}
 		}
